@@ -57,7 +57,7 @@ fn push_result(c: &mut Ctx, what: &str, cases: usize, r: Result<(), String>) {
 
 fn beh_for(scheme: &str, deg: i64, nv: i64) -> Beh {
     Beh { id: format!("rng-{}-{}-{}", scheme, deg, nv), prop: "C07".into(), scheme: scheme.into(), max_degree: deg, num_vars: nv,
-          supported: deg, hiding: deg, bounds: vec![], nobounds: true, polys: vec![], rng: true, wf: true, note: String::new(), ops: vec![], adv: vec![],
+          supported: deg, hiding: deg, bounds: vec![], nobounds: true, polys: vec![], rng: true, wf: true, note: String::new(), vsupported: -1, ops: vec![], adv: vec![],
           expect: Default::default(), ser: vec![], tag: String::new() }
 }
 
